@@ -49,7 +49,26 @@ def plan(tier, seed):
                       'length': rnd.choice([1, 2, 3, 5, 8, 8, 12, 15, 20, 30]),
                       'mode': rnd.choice(['path', 'path', 'nopath', 'two_paths', 'two_nopath']),
                       'seed': '%s/C08/%d' % (seed, i)})
+    for i in range(SIZES[tier] // 2):
+        rnd = random.Random('%s/C08/plan/s%d' % (seed, i))
+        specs.append({'id': 'c08s-%d' % i, 'kind': 'structured', 'npos': 0,
+                      'length': rnd.choice([2, 3, 4, 6, 8, 12]),
+                      'mode': rnd.choice(['path', 'path', 'nopath']),
+                      'seed': '%s/C08/s%d' % (seed, i)})
     return specs
+
+
+class VirtualClock:
+    """Stands in for the `time` module inside jedi.cache: the time-based caches (3 s signature
+    cache, 10 min environment cache) then expire at steps the history chooses, not according to
+    how loaded the machine is."""
+
+    def __init__(self):
+        import time as _t
+        self.now = _t.time()
+
+    def time(self):
+        return self.now
 
 
 def fresh(job, run_dir, tag, hashseed='0'):
@@ -72,16 +91,25 @@ def fresh(job, run_dir, tag, hashseed='0'):
 def run(spec):
     from vf.driver import digest
     from jedi import parser_utils
-    text0, _, rnd = c01.build_text(spec)
+    import jedi.cache as jcache
+    clock = VirtualClock()
+    jcache.time = clock
     rec = apimon.Recorder()
+    if spec['kind'] == 'structured':
+        rnd = random.Random(spec['seed'])
+        shist = edits.structured_history(rnd, spec['length'])
+        text0 = shist[0][0]
+    else:
+        shist = None
+        text0, _, rnd = c01.build_text(spec)
     run_dir = os.environ.get('VERIF_RUN_DIR', '/var/tmp')
     case_dir = os.path.join(run_dir, 'c08-' + spec['id'])
     os.makedirs(case_dir, exist_ok=True)
     mode = spec['mode']
-    hist = edits.history(text0, rnd, spec['length'])
+    hist = [(t, None) for (t, p, k) in shist] if shist else edits.history(text0, rnd, spec['length'])
     # second buffer for the interleaved modes
     files = corpus.files()
-    other0 = corpus.fragment(corpus.read(files[(spec['file_index'] * 7 + 3) % len(files)]), rnd)
+    other0 = corpus.fragment(corpus.read(files[(spec.get('file_index', 5) * 7 + 3) % len(files)]), rnd)
     other = edits.history(other0, rnd, spec['length'])
     p1 = os.path.join(case_dir, 'buf.py') if mode in ('path', 'two_paths') else None
     p2 = os.path.join(case_dir, 'other.py') if mode == 'two_paths' else None
@@ -89,6 +117,8 @@ def run(spec):
     steps = []   # (text, path, queries, answers)
     incon = []
     for i, (text, near) in enumerate(hist):
+        # virtual time: mostly within the 3 s signature-cache window, sometimes beyond it
+        clock.now += rnd.choice([0.05, 0.05, 0.05, 0.2, 0.2, 4.0])
         if mode in ('two_paths', 'two_nopath'):
             so = jedi.Script(other[i][0], path=p2)
             try:
@@ -118,8 +148,17 @@ def run(spec):
                             'item)', case=spec['id'], step=i)
         except KeyError:
             rec.ev('c08:cache_item_absent')
-        pos = mutate.positions(text, rnd, spec['npos'], near=near)
-        queries = [[m, l, c] for (l, c) in pos[:3] for m in METHODS]
+        if shist:
+            pos = shist[i][1]
+            queries = []
+            for (l, c) in pos:
+                lt = text.split('\n')[l - 1]
+                ms = ['get_signatures'] if lt.endswith('(') else ['complete'] if lt.endswith('.') \
+                    else ['infer', 'goto', 'help']
+                queries += [[m, l, c] for m in ms]
+        else:
+            pos = mutate.positions(text, rnd, spec['npos'], near=near)
+            queries = [[m, l, c] for (l, c) in pos[:3] for m in METHODS]
         answers = [norm.run_query(s, q[0], q[1], q[2], roots) for q in queries]
         rec.ev('c08:history_queries', len(queries))
         steps.append((text, queries, answers, same_tree))
@@ -170,7 +209,8 @@ def run(spec):
     res = {'id': spec['id'], 'digest': digest(hist[-1][0]), 'violations': rec.violations,
            'events': {k: v for k, v in rec.events.items() if not k.startswith('call:')},
            'nontrivial': nonempty >= 6,
-           'sample': {'case': spec['id'], 'mode': mode, 'edits': spec['length'],
+           'sample': {'case': spec['id'], 'mode': mode, 'edits': spec['length'], 'kind': spec['kind'],
+                      'edit_kinds': [k for (t, p, k) in shist][1:] if shist else None,
                       'compared_steps': chosen, 'nonempty_compared': nonempty,
                       'final_chars': len(hist[-1][0])}}
     if incon:
